@@ -21,6 +21,7 @@ AXIOM_ALLOW = set([
 
 PROPS = {
     "C07": {
+        "class_prefixes": ["c07-", "harness-crash"],
         "subs": [
             {"name": "c07", "n_quick": 3000, "n_thorough": 150000, "model": "coq/Session/Window.v",
              "rule": "random histories of outgoing transfers / session flows (truthful, unset or bogus next-incoming-id; "
@@ -37,6 +38,7 @@ PROPS = {
         "partial": [],
     },
     "C08": {
+        "class_prefixes": ["c08-", "harness-crash"],
         "subs": [
             {"name": "c08", "n_quick": 4000, "n_thorough": 200000, "model": "coq/Link/SenderCredit.v",
              "rule": "random histories of link flows (delivery-count truthful / unset / bogus, credit 0..200, 2^32-1 or unset, drain, echo) "
